@@ -889,6 +889,24 @@ func runC07(r *Run) {
 	ruleDrainLoopsConnect(r, "R07.13")
 	r.floor("R07.14", 1)
 	ruleLocksHeldAcrossSteps(r, "R07.14")
+	r.floor("R07.17", 18)
+	ruleUnitErrorsInspected(r, "R07.17")
+	// R07.15: the shared components on Run's path equal their reference models, which are total
+	// (no index outside a ring, a queue or a line): a component that deviates may panic
+	r.floor("R07.15", 35)
+	for _, m := range []string{"Read", "Find", "Write", "WriteSorted", "Values", "FindValues"} {
+		conform(r, "R07.15", "proc/comp", "RAT", m, "risc_state", nil)
+	}
+	for _, m := range []string{"get", "set"} {
+		conform(r, "R07.15", "proc/comp", "Line", m, "comp_cache", nil)
+	}
+	for _, m := range []string{"ExistingLines", "Get", "GetCacheLine", "GetSubCacheLine", "EvictCacheLine", "Write", "PushLine", "PushLineWithEvictionWarning", "Lines"} {
+		conform(r, "R07.15", "proc/comp", "LRUCache", m, "comp_cache", nil)
+	}
+	ruleBusConformance(r, "R07.15")
+	// R07.16: the jump-resolution notification redirects unconditionally (livelock on a jalr whose target changes otherwise)
+	r.floor("R07.16", 8)
+	ruleJumpResolutionRedirects(r, "R07.16")
 	// R07.10 (= R05.4a): a store routed to the cache on a presence test of fewer than all of its bytes is written past the line end (index out of range in Line.set)
 	r.floor("R07.10", 7)
 	for _, v := range variants(r.W) {
@@ -1284,5 +1302,105 @@ func ruleLocksHeldAcrossSteps(r *Run, rule string) {
 				}
 			}
 		}
+	}
+}
+
+// ruleUnitErrorsInspected (R07.17): an execute unit reports an ISA-defined error
+// (division by zero, undefined label) in the `err` field of its step result. Every
+// step performed by Run — in the main loop, in the drain before a flush, in the
+// drain at ret and in the drain after the loop — must inspect that field; a
+// discarded result turns the error into a normal return with a wrong state.
+func ruleUnitErrorsInspected(r *Run, rule string) {
+	w := r.W
+	for _, v := range variants(w) {
+		if v.pkg == nil || !v.pipelined() {
+			continue
+		}
+		info := v.info
+		n := 0
+		hasErrField := func(t types.Type) bool {
+			st, ok := t.Underlying().(*types.Struct)
+			if !ok {
+				return false
+			}
+			for i := 0; i < st.NumFields(); i++ {
+				if isErrorType(st.Field(i).Type()) {
+					return true
+				}
+			}
+			return false
+		}
+		var visit func(list []ast.Stmt)
+		visit = func(list []ast.Stmt) {
+			for i, st := range list {
+				// nested statement lists
+				ast.Inspect(st, func(m ast.Node) bool {
+					switch x := m.(type) {
+					case *ast.BlockStmt:
+						if ast.Node(x) != ast.Node(st) {
+							visit(x.List)
+							return false
+						}
+					case *ast.CaseClause:
+						visit(x.Body)
+						return false
+					case *ast.FuncLit:
+						return false
+					}
+					return true
+				})
+				// a unit step at this level
+				var call *ast.CallExpr
+				var bound types.Object
+				discarded := false
+				switch x := st.(type) {
+				case *ast.ExprStmt:
+					if c, ok := x.X.(*ast.CallExpr); ok {
+						call, discarded = c, true
+					}
+				case *ast.AssignStmt:
+					if len(x.Rhs) == 1 && len(x.Lhs) == 1 {
+						if c, ok := x.Rhs[0].(*ast.CallExpr); ok {
+							call = c
+							if id, ok := x.Lhs[0].(*ast.Ident); ok {
+								if id.Name == "_" {
+									discarded = true
+								} else if o := info.Defs[id]; o != nil {
+									bound = o
+								} else {
+									bound = info.Uses[id]
+								}
+							}
+						}
+					}
+				}
+				if call == nil {
+					continue
+				}
+				tv, ok := info.Types[call]
+				if !ok || tv.Type == nil || !hasErrField(tv.Type) {
+					continue
+				}
+				n++
+				key := fmt.Sprintf("%s.(CPU).Run:unit-step#%d", v.rel, n)
+				inspected := false
+				if !discarded && bound != nil {
+					for _, later := range list[i+1:] {
+						ast.Inspect(later, func(m ast.Node) bool {
+							if sel, ok := m.(*ast.SelectorExpr); ok {
+								if id, ok := ast.Unparen(sel.X).(*ast.Ident); ok && info.Uses[id] == bound {
+									if s := info.Selections[sel]; s != nil && isErrorType(s.Obj().Type()) {
+										inspected = true
+									}
+								}
+							}
+							return true
+						})
+					}
+				}
+				r.check(inspected, rule, key, call.Pos(), "the result of a unit step that can carry an error is bound and its error field inspected (discarded: %v)", discarded)
+			}
+		}
+		visit(v.run.Body.List)
 	}
 }
